@@ -7,7 +7,7 @@ META = {
                  "(straight-line machines driven by arbitrary broker/mechanism answer scripts, both handshake versions, raw and framed tokens); "
                  "trace acceptance: a fake broker over net.Pipe journals every connection of the real Dialer / Transport, a wrapper records the real "
                  "sasl.Mechanism's outputs, the compiled Lean oracle replays the script and evaluates the RFC 4616 / ordering monitors; "
-                 "SCRAM run against xdg-go/scram's server side, an independent stdlib RFC 5802 server and an impostor broker that forges the server signature; "
+                 "SCRAM run against xdg-go/scram's server side, an independent stdlib RFC 5802 server and an impostor broker that forges the server signature; the fake broker also runs behind a real crypto/tls server and notes what reaches its raw socket first; "
                  "regenerated go/ast ties: the PLAIN format string, the SCRAM adaptor's shape facts, call orders, and decision tables obtained by symbolic execution of both "
                  "authenticateSASL functions, Dialer.connect, connGroup.connect, the handshake/authenticate wrappers, Conn.saslAuthenticate and protocol.Conn.RoundTrip, each recomputed "
                  "from Model/Auth.lean by `decide`",
@@ -16,7 +16,7 @@ META = {
         "text": "Kernel-checked for every answer script, both paths and handshake versions: only ApiVersions/SaslHandshake/SaslAuthenticate/raw tokens are "
                 "written before the client has seen a positive answer that completed the mechanism; with a mechanism that completes only on the broker's final "
                 "answer the broker-side ordering monitor holds; any error code / EOF / I/O failure / mechanism failure ends in an error with the connection closed and "
-                "nothing written afterwards; set-up ends with every request answered and never pipelines; PLAIN builds the RFC 4616 message; the SCRAM adaptor reports completed only "
+                "nothing written afterwards; set-up ends with every request answered and never pipelines; with TLS configured the ClientHello is the only thing in clear and a failed handshake is a failed dial with the socket closed; PLAIN builds the RFC 4616 message; the SCRAM adaptor reports completed only "
                 "if the conversation verified that very challenge (reduced to the dependency's contract ConvSound). Partial: SCRAM's cryptography and SASLprep are not modelled (exercised against two "
                 "reference servers only).",
         "design_ref": "DESIGN.md §7 C18",
